@@ -31,17 +31,17 @@ var decModes = []int{1, 2, 3, 4, 5, 6, 7, 8, 25, 1000, 1002, 1003, 1006, 1007, 1
 var ansiModes = []int{2, 4, 12, 20, 0, 7}
 
 type genr struct {
-	jobs   []emuh.Job
+	jobs    []emuh.Job
 	hypViol int
 	// sixelGuardOK: the size guard in front of the sixel decoder works (probed once with a payload
 	// on which the unguarded decoder panics recoverably). When it does not, payloads that would make
 	// the decoder allocate without bound (and kill this process) are not generated: the corpus case
 	// F105i reports the violation with a concrete input.
 	sixelGuardOK bool
-	r      *hx.Run
-	rng    *gen.Rng
-	hangs  int
-	panics int
+	r            *hx.Run
+	rng          *gen.Rng
+	hangs        int
+	panics       int
 }
 
 func (g *genr) param(w, h int, final string) int {
@@ -417,6 +417,68 @@ func run(r *hx.Run) error {
 			return g.op(w, h), true
 		})
 		r.Count("case:generated")
+	}
+	// 2b. round 3: styled screens, then resizes (the reflow re-prints every old cell in its own style: F112c)
+	styled := 600
+	if r.Thorough {
+		styled = 6000
+	}
+	for c := 0; c < styled; c++ {
+		rg := g.rng
+		w, h := rg.Range(1, 12), rg.Range(1, 6)
+		w0, h0 := w, h
+		var ops []string
+		lines := rg.Range(1, 4)
+		for l := 0; l < lines; l++ {
+			ops = append(ops, emuh.Csi("m", gen.Pick(rg, []string{"41", "44;1", "38;5;9", "48;2;1;2;3", "7", "4:3", "0", "32;45"})))
+			for k := rg.Range(0, w+2); k > 0; k-- {
+				ops = append(ops, emuh.Pr(gen.Pick(rg, []string{"a", "b", "x", " ", "世", "é"})))
+			}
+			if rg.Chance(2, 3) {
+				ops = append(ops, "c0 13", "c0 10")
+			}
+		}
+		if rg.Chance(1, 4) {
+			ops = append(ops, "esc "+hx.Hex("7"))
+		}
+		onAlt := rg.Chance(1, 3)
+		if onAlt {
+			ops = append(ops, emuh.Csi("?h", "1049"))
+			r.Count("resize:on-alternate-screen")
+		}
+		if rg.Chance(1, 2) {
+			ops = append(ops, emuh.Csi("m", ""))
+			r.Count("resize:pen-default")
+		} else {
+			ops = append(ops, emuh.Csi("m", gen.Pick(rg, []string{"42", "1;4", "38;2;9;9;9"})))
+			r.Count("resize:pen-styled")
+		}
+		for n := rg.Range(1, 2); n > 0; n-- {
+			nw, nh := rg.Range(1, 14), rg.Range(1, 7)
+			ops = append(ops, fmt.Sprintf("resize %d %d", nw, nh))
+			if nw < w || nh < h {
+				r.Count("resize:shrinks")
+			} else {
+				r.Count("resize:grows-or-same")
+			}
+			w, h = nw, nh
+			ops = append(ops, emuh.Pr("z"))
+			if rg.Chance(1, 3) {
+				ops = append(ops, "esc "+hx.Hex("8"), emuh.Pr("y"))
+			}
+		}
+		if onAlt && rg.Chance(1, 2) {
+			ops = append(ops, emuh.Csi("?l", "1049"))
+		}
+		idx := 0
+		g.runCase(fmt.Sprintf("styled-resize-%d", c), w0, h0, func(i, _, _ int) (string, bool) {
+			if idx >= len(ops) {
+				return "", false
+			}
+			idx++
+			return ops[idx-1], true
+		})
+		r.Count("case:styled-resize")
 	}
 	// 2b. a slice of the C06 bounded-exhaustive sequences (model correspondence on the core vocabulary;
 	// the C06 driver itself is the oracle only)
